@@ -383,6 +383,30 @@ def _tracker_step_once(i):
             "expected": {"reported": exp_report, "cleanups_incl_final_sweep": expected_calls}}
 
 
+# ---------------------------------------------------------------- C16
+def h_class_wrapper_callable(i):
+    """An instance built through a wrapped class must be callable iff its object is."""
+    from loky.cloudpickle_wrapper import wrap_non_picklable_objects
+
+    class WithCall:
+        def __init__(self, k):
+            self.k = k
+
+        def __call__(self, x):
+            return self.k + x
+
+    class Plain:
+        def __init__(self, k):
+            self.k = k
+    obs = {}
+    for cls in (WithCall, Plain):
+        W = wrap_non_picklable_objects(cls, keep_wrapper=bool(i.get("keep_wrapper", True)))
+        w = W(3)
+        obs[cls.__name__] = {"callable(wrapper instance)": callable(w), "callable(its object)": callable(w._obj)}
+    bad = [k for k, v in obs.items() if v["callable(wrapper instance)"] != v["callable(its object)"]]
+    return {"reproduced": bool(bad), "observed": obs, "expected": "callable(wrapper instance) == callable(its object) for both classes"}
+
+
 def main():
     name, inputs, repo = sys.argv[1], json.loads(sys.argv[2]), sys.argv[3]
     sys.path.insert(0, repo)
